@@ -1371,3 +1371,64 @@ def r15_6(ctx):
     (a trimmed or otherwise edited line changes which whitespace-only lines continue a directive) (= C16 R16.1)"""
     import rules_text
     rules_text.r16_1(ctx)
+
+
+@rule("C11", "R11.8", floor=1)
+def r11_8(ctx):
+    """no requested input is silently dropped: in resolve_inputs every item of the input list is pushed (as a file or a directory to
+    scan) or makes the function return an error, on every path back to the loop head"""
+    lib = ctx.lib
+    ri = body(ctx, "resolve_inputs")
+    if not ri:
+        return
+    heads = [(bb, t) for bb, t in ri.calls() if C.callee_name(t).endswith("as std::iter::Iterator>::next")]
+    some_e = enum_edges(ri, lib, "std::option::Option", lambda vs: vs == {"Some"},
+                        src_pred=lambda c: any(l.kind == "call" and C.callee_name(l.data).endswith("as std::iter::Iterator>::next") and
+                                               any(x.kind == "param" and ri.local_name(x.data) == "inputs"
+                                                   for x in C.trace(ri, l.data["args"][0], transparent=lambda t: C.is_transparent(t) or T.item_preserving(C.callee_name(t))))
+                                               for l in c.src))
+    if not heads or not some_e:
+        ctx.anchor_missing("loop over the inputs in resolve_inputs")
+        return
+    pushes = [bb for bb, t in calls_to(ri, "std::vec::Vec::<T, A>::push")
+              if has_field(C.trace(ri, t["args"][0], through_fields=True), "files") or has_field(C.trace(ri, t["args"][0], through_fields=True), "subdirs")]
+    errs = err_sites(ri)
+    reached = C.after_edges(ri, some_e, cut=out_edges(ri, pushes + list(errs)))
+    esc = [bb for bb, t in heads if bb in reached] + [bb for bb in reached if ri.term(bb)["k"] == "return"]
+    if esc:
+        ctx.violation(["input-dropped"], "resolve_inputs can go on to the next input (or return) without having scheduled the current one or "
+                      "reported an error: a requested source / directory would be silently skipped", site=ctx.site(ri, esc[0]),
+                      witness=C.witness(ri, esc[0], out_edges(ri, pushes + list(errs))))
+    else:
+        ctx.ok("every input is scheduled or is an error", site=ctx.site(ri, heads[0][0]))
+
+
+@rule("C10", "R10.5", floor=1)
+def r10_5(ctx):
+    """try_resolve names exactly one location: the argument itself when absolute, otherwise the argument joined onto the current path
+    (`self.p`) — no fallback directory (a second candidate such as the base directory would let clean delete, or temp overwrite, a
+    same-named file that is neither an output nor a temp target)"""
+    lib = ctx.lib
+    tr = body(ctx, "try_resolve")
+    if not tr:
+        return
+    p_ext = tr.param_index_by_name("ext")
+    sb = calls_to(tr, ROLE["share_base"])
+    if not sb:
+        ctx.anchor_missing("share_base call in try_resolve")
+    for bb, t in sb:
+        lv = C.trace(tr, t["args"][1])
+        bad = []
+        for l in lv:
+            if l.kind == "param" and l.data == p_ext:
+                continue
+            if l.kind == "call" and C.callee_name(l.data) == "std::path::Path::join":
+                a0 = C.trace(tr, l.data["args"][0], through_fields=True)
+                a1 = C.trace(tr, l.data["args"][1])
+                if has_field(a0, "p") and not has_field(a0, "b") and a1 and all(x.kind == "param" and x.data == p_ext for x in a1):
+                    continue
+            bad.append(repr(l))
+        if bad or not lv:
+            ctx.violation([tr.name, "resolve-candidates"], "try_resolve can return a path other than `ext` / `self.p.join(ext)`: %s" % bad[:3], site=ctx.site(tr, bb))
+        else:
+            ctx.ok("resolved path is ext or self.p.join(ext)", site=ctx.site(tr, bb))
